@@ -238,11 +238,10 @@ Proof. exact @subfs_refines_ref_normalised. Qed.
 Print Assumptions C01_subfs_refines_ref_normalised.
 
 (* ---- OSFS: the model over the POSIX kernel model (FS/Posix.v, FS/Osfs.v), tied to the real OSFS step by step on every run ---- *)
-(* TO APPEND VERBATIM to the end of /verif/coq/Props/C01.v (checked: `cat Props/C01.v /tmp/osfs/C01add.v` compiles and
-   prints 22 + 15 times "Closed under the global context").  It also compiles on its own:
-     cd /verif/coq && coqc -Q . PyFS /tmp/osfs/C01add.v
-   The import lines below may stay where they are (mid-file) or be merged into the header of C01.v - in that case keep
-   `String` LAST and add `Local Open Scope list_scope.` (String re-binds `length` / `++`). *)
+(* The OSFS block of /verif/coq/Props/C01.v (everything after the marker comment line "---- OSFS: the model over the
+   POSIX kernel model ..."): 16 theorems.  It also compiles on its own:  cd /verif/coq && coqc -Q . PyFS /tmp/osfs/C01add.v
+   The import lines stay mid-file; if they are ever merged into the header of C01.v keep String LAST and add
+   Local Open Scope list_scope (String re-binds length and ++). *)
 From Coq Require Import List NArith ZArith Bool String.
 From PyFS Require Import Base.PyStr Base.Outcome Base.Render FS.Tree FS.Ops FS.Ref FS.Agree FS.Mem FS.Wf
      FS.RefineWalkLemmasBfs FS.Osfs FS.OsfsProofs.
@@ -258,14 +257,14 @@ Print Assumptions C01_osfs_initial.
 
 (* same verdict, admissible error class, same return value, same tree (names, types, bytes) *)
 Theorem C01_osfs_refines_ref : forall o s,
-  wf s -> nn s -> covered o = true -> os_mode_ok o = true ->
+  wf s -> nn s -> covered o = true ->
   agree_nt (osfs_run o s) (ref_run o s) = true.
 Proof. exact osfs_refines_ref. Qed.
 Print Assumptions C01_osfs_refines_ref.
 
 (* ... and the same modification times, for the calls where the kernel's time rules are the reference's *)
 Theorem C01_osfs_refines_ref_times : forall o s,
-  wf s -> nn s -> covered o = true -> os_mode_ok o = true -> os_times_exact o = true ->
+  wf s -> nn s -> covered o = true -> os_times_exact o = true ->
   agree (osfs_run o s) (ref_run o s) = true.
 Proof. exact osfs_refines_ref_times. Qed.
 Print Assumptions C01_osfs_refines_ref_times.
@@ -282,27 +281,33 @@ Print Assumptions C01_osfs_nn_preserved.
 
 (* every call of every history of covered calls, from every well-formed state *)
 Theorem C01_osfs_history_refines : forall ops s,
-  wf s -> nn s -> forallb (fun o => covered o && os_mode_ok o) ops = true -> os_hist_ok s ops.
+  wf s -> nn s -> forallb covered ops = true -> os_hist_ok s ops.
 Proof. exact osfs_history_refines. Qed.
 Print Assumptions C01_osfs_history_refines.
 
 (* swapping MemoryFS for OSFS: same verdict, classes from the same admissible set, same tree up to times *)
 Theorem C01_osfs_mem_same_verdict : forall o s,
-  wf s -> nn s -> covered o = true -> os_mode_ok o = true ->
+  wf s -> nn s -> covered o = true ->
   agree_nt (osfs_run o s) (ref_run o s) = true /\ agree (mem_run o s) (ref_run o s) = true /\
   verdict (snd (osfs_run o s)) = verdict (snd (mem_run o s)) /\
   tree_eqb false (fst (osfs_run o s)) (fst (mem_run o s)) = true.
 Proof. exact osfs_mem_same_verdict. Qed.
 Print Assumptions C01_osfs_mem_same_verdict.
 
-(* the side condition on open modes is needed: a finding (confirmed on the real OSFS) *)
-Theorem C01_osfs_iomode_refuted :
+(* open modes: every mode fs.mode.Mode accepts is one io.open accepts (since /repo af07be9 Mode.validate demands
+   exactly one of r/w/x/a and at most one '+', 'b', 't'), so no condition on the mode string is left; the former
+   counterexample "rw" (ValueError from inside OSFS.openbin only) is now a ValueError everywhere *)
+Theorem C01_osfs_mode_ok_always : forall o, os_mode_ok o = true.
+Proof. exact os_mode_ok_always. Qed.
+Print Assumptions C01_osfs_mode_ok_always.
+
+Theorem C01_osfs_iomode_now_agrees :
   let o := OOpenwrite (lit "f") (lit "rw") (lit "XY") in
-  covered o = true /\ os_mode_ok o = false /\
-  agree_nt (osfs_run o ce_state) (ref_run o ce_state) = false /\
+  covered o = true /\ os_mode_ok o = true /\
+  agree_nt (osfs_run o ce_state) (ref_run o ce_state) = true /\
   snd (osfs_run o ce_state) = Crash ValueError /\ agree (mem_run o ce_state) (ref_run o ce_state) = true.
-Proof. exact osfs_refines_ref_iomode_ce. Qed.
-Print Assumptions C01_osfs_iomode_refuted.
+Proof. exact osfs_refines_ref_iomode_now_agrees. Qed.
+Print Assumptions C01_osfs_iomode_now_agrees.
 
 (* removetree with a NUL that a back-reference would cancel ("a\0/..", "x\0/../a"): REJECTED, tree unchanged
    (FS.removetree validates first since /repo b9cf049; before, the first spelling emptied the filesystem) *)
